@@ -130,6 +130,24 @@ theorem C21_ws_gate (bc : Bytes → Bytes → Bool) (cfg : Cfg) (env : Env)
   · rw [if_neg hg] at hact
     exact absurd rfl hact
 
+/-- Whatever the WebSocket listener's HTTP-level gate is — no credential store at all, the same
+    users, other users — and whatever the upgrade request's Authorization header says: with
+    authentication enabled on the handler, an executed command means valid RFC 1929 credentials were
+    presented ON THE SOCKS5 STREAM. (Nothing the HTTP layer saw may stand in for them.) -/
+theorem C21_ws_any_gate (bc : Bytes → Bytes → Bool) (cfg : Cfg) (env : Env)
+    (store : Option (Bytes → Bytes → Bool)) (basic : Option (Bytes × Bytes)) (inp : Bytes)
+    (hen : cfg.enabled = true) (r : Result)
+    (hr : serveWSWith bc cfg env store basic inp = some r) (hact : r.action ≠ .none) :
+    ∃ name pw, presented inp name pw ∧ ∃ u ∈ cfg.users, u.name = name ∧ userValid bc u pw := by
+  unfold serveWSWith at hr
+  by_cases hg : httpGate store basic = true
+  · rw [if_pos hg] at hr
+    injection hr with hr
+    subst hr
+    exact C21_holds bc cfg env inp hen hact
+  · rw [if_neg hg] at hr
+    cases hr
+
 /-- The configurations the unit tests never try: no user that could log in (empty list, or only
     entries with neither password nor hash) ⇒ nothing is ever executed, for any client bytes. -/
 theorem C21_no_usable_user (bc : Bytes → Bytes → Bool) (cfg : Cfg) (env : Env) (inp : Bytes)
